@@ -2,6 +2,7 @@ package e1
 
 import (
 	"fmt"
+	"os"
 	"strings"
 	"sync/atomic"
 
@@ -46,6 +47,18 @@ func RunC14(tier string) int {
 				}
 			case 2: // expected_output check
 				m := "markers/eo_" + t.MID()
+				if r.Chance(1, 3) {
+					// a white-space-only expectation: the check must print nothing (an empty
+					// expectation would mean "exit status only")
+					m = "markers/blank_" + t.MID()
+					t.Checks = append(t.Checks, spec.Check{Marker: m, Expected: rng.Pick(r, []string{"\n", " ", "\n\n"})})
+					markers = append(markers, m)
+					run.Count("checks_expecting_no_output", 1)
+					if r.Chance(1, 2) {
+						t.Touch = m
+					}
+					break
+				}
 				t.Checks = append(t.Checks, spec.Check{Marker: m, Expected: "ok"})
 				markers = append(markers, m)
 				if r.Chance(1, 2) {
@@ -151,8 +164,11 @@ func RunC14(tier string) int {
 					if on && exp != "" && r.Chance(2, 3) {
 						// the condition of an expected_output check is destroyed while its marker
 						// stays: the check command prints something else than what is expected
+						if strings.TrimSpace(exp) == "" {
+							exp = "unexpected" // (nothing is expected: any output destroys the condition)
+						}
 						bad := rng.Pick(r, []string{exp + "\nDEGRADED: disk lost\n", exp + "\nsecond line\nthird line\n", exp + "\n" + exp + "\n", "first line\n" + exp + "\n",
-							exp + "ay\n", "", "\n" + "not-" + exp + "\n", exp + " " + exp + "\n"})
+							exp + "ay\n", map[bool]string{true: "", false: "x"}[exp != "unexpected"], "\n" + "not-" + exp + "\n", exp + " " + exp + "\n"})
 						env.SpoilMarker(m, bad)
 						how = fmt.Sprintf(" (marker now prints %q)", bad)
 						run.Count("expected_output_conditions_destroyed_by_other_output", 1)
@@ -329,6 +345,57 @@ func RunC14(tier string) int {
 			}
 		}
 	})
+	// records written by another mode: a build with the cache disabled records results without
+	// outputs under the ordinary keys; the outputs then vanish from the workspace; an ordinary
+	// build that reports success has to leave every declared output in place all the same
+	if report.Part("othermode") {
+		Parallel(tierN(tier, 8, 60), func(i int) {
+			r := rng.Derive(uint64(run.Seed), "C14-othermode", fmt.Sprint(i))
+			pf := spec.DefaultProfile()
+			pf.MinTargets, pf.MaxTargets = 3, 6
+			s := spec.Gen(r, pf)
+			gcfg := randCfg(r)
+			if i%3 == 2 {
+				gcfg.LoadOutputs = "minimal"
+			}
+			env, err := NewEnv(st.Base, fmt.Sprintf("om%d", i), st.Grog, st.Vctl, s, gcfg)
+			if err != nil {
+				run.Infra(err.Error())
+				return
+			}
+			keep := false
+			defer func() {
+				if !keep {
+					env.Cleanup()
+				}
+			}()
+			if obs := env.RunBuild(BuildOpts{DisableCache: true}); obs.Res.Exit != 0 {
+				run.Count("othermode_cases_skipped(first build failed)", 1)
+				return
+			}
+			env.WipeOutputs()
+			obs := env.RunBuild(BuildOpts{})
+			run.Eval(1)
+			run.Count("cached_builds_over_records_of_a_cache_disabled_build", 1)
+			if obs.Res.Exit != 0 || obs.Res.Crashed() != "" || obs.Res.TimedOut {
+				run.Count("divergence_other_property:failure-crash-or-hang", 1)
+				return
+			}
+			if gcfg.LoadOutputs == "minimal" {
+				run.Nontrivial("othermode|minimal") // (outputs of cache hits are not loaded in this mode: exit status only)
+				return
+			}
+			for _, t := range s.Targets {
+				for _, o := range t.AllOuts() {
+					if _, err := os.Lstat(spec.OutAbs(env.WS, t.Pkg, o.Path)); err != nil {
+						keep = !run.Violation("success-with-missing-declared-output after-cache-disabled-build", fmt.Sprintf("the build exited 0 but %s of %s does not exist (the target's record was written by a build with --enable-cache=false and names no outputs; the workspace copy was removed)", o.Path, t.Label()), mkReplay(i, env, obs)) || keep
+						return
+					}
+				}
+			}
+			run.Nontrivial("othermode|all|" + s.Shape())
+		})
+	}
 	run.Assume("the checked condition is an external marker file the harness owns; it is not a declared input, so only the output check can see it")
 	return run.Finish()
 }
